@@ -7,7 +7,11 @@ From RV Require Import Model.Batcher Model.Reorder.
 Import ListNotations.
 Open Scope N_scope.
 
-Inductive bobs := OAdd (x : N) | OFull (b : bool) | OFlush (t : Z) (res : list N) | OFire (r : option Z).
+Inductive bobs :=
+| OAdd (x : N) | OFull (b : bool) | OFlush (t : Z) (res : list N) | OFire (r : option Z)
+| OExpire (was_armed : bool)                   (* the callback now set on the timer is committed to run (late callback regime) *)
+| ODeliver (i : N) (armgen : N) (tok : Z).     (* the i-th committed callback ran and sent tok; it had been set when armgen
+                                                  non-empty batches had been handed out *)
 Inductive stim := SAdd (x : N) | SFlush | SFire (was_armed : bool) | SHoldA | SHoldT | SRelease | SComplete (k : N) | SRead.
 Definition robs := (bool * bool * bool * N * N)%type.   (* adder call unfinished, adder held, time-out flusher held, fetches running, |Output| *)
 Definition rstep := (stim * robs)%type.
@@ -31,28 +35,41 @@ Definition mem_z (x : Z) (l : list Z) : bool := existsb (Z.eqb x) l.
 (* ------------------------------------------------------------------ batcher histories *)
 
 (* model side: replay, comparing every result *)
-Fixpoint bcheck (p : bparams) (ops : list bobs) (s : bstate N) : list N :=
+Fixpoint bcheck (p : bparams) (ops : list bobs) (s : bstate N) (committed : list Z) : list N :=
   match ops with
   | [] => []
-  | OAdd x :: r => bcheck p r (b_add p x s)
-  | OFull b :: r => (if Bool.eqb b (b_full p s) then [] else [1]) ++ bcheck p r s
+  | OAdd x :: r => bcheck p r (b_add p x s) committed
+  | OFull b :: r => (if Bool.eqb b (b_full p s) then [] else [1]) ++ bcheck p r s committed
   | OFlush t res :: r =>
       let m := b_flush t s in
-      (if nlist_eqb res (fst m) then [] else [2]) ++ bcheck p r (snd m)
-  | OFire o :: r => (if optz_eqb o (b_fire s) then [] else [3]) ++ bcheck p r s
+      (if nlist_eqb res (fst m) then [] else [2]) ++ bcheck p r (snd m) committed
+  | OFire o :: r => (if optz_eqb o (b_fire s) then [] else [3]) ++ bcheck p r s committed
+  | OExpire a :: r =>
+      match armed s with
+      | Some t => (if a then [] else [3]) ++ bcheck p r s (committed ++ [t])
+      | None => (if a then [3] else []) ++ bcheck p r s committed
+      end
+  | ODeliver i _ tok :: r =>
+      match nth_error committed (N.to_nat i) with
+      | Some t => (if Z.eqb t tok then [] else [3]) ++ bcheck p r s (drop_nth (N.to_nat i) committed)
+      | None => [3]
+      end
   end.
 
 (* spec side: (12) everything handed out, concatenated, is exactly what was added (the engine ends every history with
    Flush(CurrentBatch)); (13) a token delivered by the timer before some batch was handed out flushes nothing afterwards *)
 Definition b_added (ops : list bobs) : list N := flat_map (fun o => match o with OAdd x => [x] | _ => [] end) ops.
 Definition b_handed (ops : list bobs) : list N := flat_map (fun o => match o with OFlush _ res => res | _ => [] end) ops.
-Fixpoint stale_ok (ops : list bobs) (delivered dead : list Z) : bool :=
+Fixpoint stale_ok (ops : list bobs) (gen : N) (delivered dead : list Z) : bool :=
   match ops with
   | [] => true
-  | OFire (Some t) :: r => stale_ok r (t :: delivered) dead
+  | OFire (Some t) :: r => stale_ok r gen (t :: delivered) dead
+  | ODeliver _ armgen t :: r =>
+      (* a callback set for a batch that has already been handed out: its token is dead on arrival *)
+      if armgen <? gen then stale_ok r gen delivered (t :: dead) else stale_ok r gen (t :: delivered) dead
   | OFlush t (_ :: _) :: r =>
-      negb (negb (Z.eqb t (-1)) && mem_z t dead) && stale_ok r delivered (delivered ++ dead)
-  | _ :: r => stale_ok r delivered dead
+      negb (negb (Z.eqb t (-1)) && mem_z t dead) && stale_ok r (gen + 1) [] (delivered ++ dead)
+  | _ :: r => stale_ok r gen delivered dead
   end.
 
 (* ------------------------------------------------------------------ reorder schedules *)
@@ -206,9 +223,9 @@ Definition adder_ok (per : N) (batches : list (list (N * N))) (a : N) : bool :=
 Definition check_case (c : case) : list N :=
   match c with
   | BCase max delay ops =>
-      bcheck (mkBP max delay) ops b_init ++
+      bcheck (mkBP max delay) ops b_init [] ++
       (if nlist_eqb (b_handed ops) (b_added ops) then [] else [12]) ++
-      (if stale_ok ops [] [] then [] else [13])
+      (if stale_ok ops 0 [] [] then [] else [13])
   | RCase max delay buf steps added_o out_o fetched settled =>
       let p := mkRP (mkBP max delay) buf true in
       let r := rreplay p steps m_init in
